@@ -333,30 +333,23 @@ Fixpoint apply_ops (c : bctx) (roots : option oid * option oid * option oid) (op
   end.
 
 (* _collect_extensions in strict mode *)
+Fixpoint nodup_strs (l : list str) : bool :=
+  match l with
+  | [] => true
+  | x :: l' => negb (mem_str x l') && nodup_strs l'
+  end.
+(* ... a type or directive defined twice in the document itself is refused
+   too (fix C11-09) *)
 Definition collect_ok (m : mem) (s : schema) (doc : extdoc) : bool :=
   negb (x_schema_def doc)
+  && nodup_strs (map td_name (x_defs doc)) && nodup_strs (map dd_name (x_dirs doc))
   && forallb (fun d => negb (ahas (td_name d) (s_types s))) (x_defs doc)
   && forallb (fun d => negb (ahas (dd_name d) (s_dirs s) || mem_str (dd_name d) specified_directive_names))
              (x_dirs doc)
   && forallb (fun e => ahas (te_target e) (s_types s) || mem_str (te_target e) (map td_name (x_defs doc)))
              (x_exts doc).
 
-(* _collect_extensions keeps definitions in dicts keyed by name: a second
-   definition of the same name in the document silently replaces the first
-   one (at the first one's position) *)
-Fixpoint dict_set {A} (key : A -> str) (x : A) (l : list A) : list A :=
-  match l with
-  | [] => [x]
-  | y :: l' => if str_eqb (key x) (key y) then x :: l' else y :: dict_set key x l'
-  end.
-Definition dict_of_defs {A} (key : A -> str) (l : list A) : list A :=
-  fold_left (fun acc x => dict_set key x acc) l [].
-Definition normalise (doc : extdoc) : extdoc :=
-  MkExt (x_schema_def doc) (dict_of_defs td_name (x_defs doc)) (x_exts doc)
-        (dict_of_defs dd_name (x_dirs doc)) (x_ops doc).
-
-Definition extend_x (fuel : nat) (m : mem) (s : schema) (doc0 : extdoc) : xres (outcome (mem * schema)) :=
-  let doc := normalise doc0 in
+Definition extend_x (fuel : nat) (m : mem) (s : schema) (doc : extdoc) : xres (outcome (mem * schema)) :=
   if negb (collect_ok m s doc) then XRejected
   else
     let olds := old_entries m s in
